@@ -985,7 +985,7 @@ func init() {
 		Rule: "real pkg/obikmer code executed next to a string-level reference. weights: sequence sets (1-8 sequences with counts, reads of a template, tandem repeats, lengths <k / =k / >k up to 500, IUPAC codes) x k=2..31, node table compared with the dictionary sum(count x occurrences), each expansion of an ambiguous window counting once; " +
 			"path/cycle: graphs with bubbles, tips, several sources, inserted repeats, cycles closed across reads, tandem repeats: HasCycle vs Kahn, Nexts/Previouses/Heads vs string overlaps, HaviestPath and LongestConsensus(.,0) must be a walk from a source of the maximal weight computed by DP (confirmed by exhaustive walk enumeration on graphs of at most 60 nodes), nothing returned iff cyclic; " +
 			"identity: one sequence without repeated (k-1)-mer, length k..500; canonical: NormalizedKmerSlice of s and of revcomp(s) for Uint64/Uint128/Uint256 keys, every k with 2k <= word width, k<=64, even = plain, odd = sparse, lengths <k, =k, beyond 32/64/128 bases, ambiguity codes; fourmer: Count4Mer/Encode4mer/Index4mer/Common4Mer, lengths 0..500, fresh and reused buffers. " +
-			"Added later: graphs examined again after FilterMinWeight and after further pushes, obikmersimcount end to end for k = 2..64 plain and sparse with queries in both orientations. weights-degenerate: one window standing for more than 2^20 words, against a numeric dictionary. " +
+			"Added later: graphs examined again after FilterMinWeight and after further pushes, obikmersimcount end to end for k = 2..64 plain and sparse with queries in both orientations. weights-degenerate: one window standing for more than 2^20 words, against a numeric dictionary; consensus: obiconsensus.BuildConsensus on reads with an exact repeat of 4-30 bases (the k-mer size has to be raised, up to 31). " +
 			"distinct_nontrivial = distinct (k, category, set size, total length class) for weights, (k, generator, acyclic, node-count class, branching nodes, sources) for graphs of at least 2 nodes, (k, len=k or >k, length class) for identity, (key type, k, sparse, length class relative to k and to the word, ambiguity, first failing clause) for canonical, (length class, ambiguity rate, reuse) for fourmer",
 		Assume: []string{
 			"an ambiguity code stands for each of its bases: every expansion of a window counts as one occurrence of that word (weights); windows containing an ambiguity code yield no canonical k-mer (index); 4-mer tables read every symbol other than a,c,g,t,u as 'a' as documented in Encode4mer",
@@ -1000,6 +1000,7 @@ func init() {
 			{Name: "path", N: core.Const(64, 512), Run: runPath, Shard: 2, TimeoutS: 600},
 			{Name: "cycle", N: core.Const(64, 512), Run: runCycle, Shard: 2, TimeoutS: 600},
 			{Name: "identity", N: core.Const(32, 256), Run: runIdentity, Shard: 2, TimeoutS: 600},
+			{Name: "consensus", N: core.Const(16, 96), Run: runConsensus, TimeoutS: 600},
 			{Name: "canonical", N: core.Const(nCombos, nCombos*6), Run: runCanonical, Shard: 4, TimeoutS: 600},
 			{Name: "kmersim-e2e", N: core.Const(4, 24), Run: runKmerSimE2E},
 			{Name: "fourmer", N: core.Const(32, 256), Run: runFourmer, Shard: 2, TimeoutS: 600},
